@@ -87,21 +87,21 @@ func c20Profile(i int, multiRead bool) vmodel.Profile {
 }
 
 type c20Hist struct {
-	r        *vkit.Run
-	rp       *reporter
-	ctx      context.Context
-	cfg      c20Config
-	idx      int
-	steps    int
-	mw       storage.Storage
-	inner    storage.Storage
-	rc       *recCache
-	st       *stepper
-	prof     vmodel.Profile
-	rng      *vkit.Rand // probe choices
-	lastMut  map[keyRef]string
-	reported map[string]bool
-	full     bool
+	r         *vkit.Run
+	rp        *reporter
+	ctx       context.Context
+	cfg       c20Config
+	idx       int
+	steps     int
+	mw        storage.Storage
+	inner     storage.Storage
+	rc        *recCache
+	st        *stepper
+	prof      vmodel.Profile
+	rng       *vkit.Rand // probe choices
+	lastMut   map[keyRef]string
+	reported  map[string]bool
+	full      bool
 	multiRead bool // histories generated with bodies > 32 KiB (needed to replay)
 	wedged    bool // a call panicked inside a write transaction: the inner storage is unusable
 }
